@@ -144,6 +144,15 @@ def _canon_ite(t):
                 return ("saturating", "Sub", (x, y), else_v[4] if len(else_v) > 4 else None)
             if cond_op == "Ge" and else_v == ("c", 0) and sub(x, y, then_v):
                 return ("saturating", "Sub", (x, y), then_v[4] if len(then_v) > 4 else None)
+            # the strict / non-strict twins (x - y is 0 when x == y) and the mirrored comparisons
+            if cond_op == "Le" and then_v == ("c", 0) and sub(x, y, else_v):
+                return ("saturating", "Sub", (x, y), else_v[4] if len(else_v) > 4 else None)
+            if cond_op == "Gt" and else_v == ("c", 0) and sub(x, y, then_v):
+                return ("saturating", "Sub", (x, y), then_v[4] if len(then_v) > 4 else None)
+            if cond_op in ("Gt", "Ge") and then_v == ("c", 0) and sub(y, x, else_v):        # if y <(=) x' .. written as x >(=) y
+                return ("saturating", "Sub", (y, x), else_v[4] if len(else_v) > 4 else None)
+            if cond_op in ("Lt", "Le") and else_v == ("c", 0) and sub(y, x, then_v):
+                return ("saturating", "Sub", (y, x), then_v[4] if len(then_v) > 4 else None)
     return t
 
 
@@ -853,6 +862,16 @@ class TB:
                 path = self.F.graph[key]["path"]
                 fr = dict(fr, res={"key": key, "path": path, "repo": self.F.graph[key].get("repo")},
                           gargs=list(reversed(fr.get("gargs", []))))
+        if path in REF_FORWARDERS and len(args) == 2:
+            # `a == b` on two references: std's `impl PartialEq<&B> for &A` is `PartialEq::eq(*self, *other)` - the one call in
+            # its instance graph - on the referents
+            node = self.F.graph.get(key)
+            tg = [e["to"] for e in (node or {}).get("edges", []) if e.get("why") == "call"]
+            if len(tg) == 1 and tg[0] in self.F.graph:
+                key = tg[0]
+                path = self.F.graph[key]["path"]
+                fr = dict(fr, res={"key": key, "path": path, "repo": self.F.graph[key].get("repo")})
+                args = tuple(a[1] if a[0] == "ref" else ("deref", a) for a in args)
         s = std_summary(self, path, upath, fr, args)
         if s is not None:
             return s
@@ -948,6 +967,11 @@ def canon_alias(F, v):
 FORWARDERS = {
     "<T as core::convert::Into<U>>::into",
     "<T as core::convert::TryInto<U>>::try_into",
+}
+
+REF_FORWARDERS = {
+    "core::cmp::impls::<impl core::cmp::PartialEq<&B> for &A>::eq",
+    "core::cmp::impls::<impl core::cmp::PartialEq<&mut B> for &mut A>::eq",
 }
 
 PURE_TRAIT_METHODS = {
